@@ -214,7 +214,7 @@ def main(tier, seed):
         samples=[cases[1][1].get('yaml', '')[:600], cases[3][1].get('yaml', '')[:600]],
         known_findings_reported=list(v.known),
         source_blobs=repo_blob_ids(['sismic/io/yaml.py', 'sismic/io/datadict.py', 'sismic/model/elements.py']),
-        proof_info={k: info.get(k) for k in ('build_ok', 'ok', 'closed', 'axioms', 'forbidden_tokens', 'note')})
+        proof_info={k: info.get(k) for k in ('build_ok', 'ok', 'closed', 'axioms', 'forbidden_tokens', 'note', 'coqchk')})
     write_evidence(PROP, tier, seed, t0, cov,
                    ['valid = DESIGN.md section 6 (C11): composite states have children, optional strings absent or non-empty, '
                     'event names without surrounding whitespace, validate() passes',
